@@ -187,6 +187,14 @@ func c11Exec(c *engine.Ctx, cs c11Case) {
 				fail("pointintersectsline", fmt.Sprintf("PointIntersectsLine=%v exact=%v", g2, want))
 				return
 			}
+			// the robust strategy handed over as a pointer (it implements the interface as well)
+			var g3 bool
+			if pn, _ := engine.Guard(func() {
+				g3 = lineintersector.PointIntersectsLine(&lineintersector.RobustLineIntersector{}, pc, geom.Coord(flat[:2]), geom.Coord(flat[cs.Layout.Stride():cs.Layout.Stride()+2]))
+			}); pn != nil || g3 != want {
+				fail("pointintersectsline-pointer-strategy", fmt.Sprintf("PointIntersectsLine(&RobustLineIntersector{}, ...)=%v (panic %v) exact=%v", g3, pn, want))
+				return
+			}
 		}
 		if want {
 			c.Count("on_line", 1)
@@ -214,7 +222,13 @@ func c11LeanLine(c *engine.Ctx, counter string, a, b, p [2]float64) {
 		want := exactSign3Small(S[0], S[1], E[0], E[1], Q[0], Q[1]) == 0 &&
 			Q[0] >= math.Min(S[0], E[0]) && Q[0] <= math.Max(S[0], E[0]) && Q[1] >= math.Min(S[1], E[1]) && Q[1] <= math.Max(S[1], E[1])
 		var got bool
-		if pn, _ := engine.Guard(func() { got = xy.IsOnLine(geom.XY, geom.Coord{Q[0], Q[1]}, []float64{S[0], S[1], E[0], E[1]}) }); pn != nil || got != want {
+		if pn, _ := engine.Guard(func() {
+			got = xy.IsOnLine(geom.XY, geom.Coord{Q[0], Q[1]}, []float64{S[0], S[1], E[0], E[1]})
+			if q == 0 && got == want {
+				// every third query also through PointIntersectsLine with the robust strategy as a pointer
+				got = lineintersector.PointIntersectsLine(&lineintersector.RobustLineIntersector{}, geom.Coord{Q[0], Q[1]}, geom.Coord{S[0], S[1]}, geom.Coord{E[0], E[1]})
+			}
+		}); pn != nil || got != want {
 			c11Exec(c, c11Case{Mode: "line", Ring: []ref.F{ref.F(S[0]), ref.F(S[1]), ref.F(E[0]), ref.F(E[1])}, P: []ref.F{ref.F(Q[0]), ref.F(Q[1])}, Layout: geom.XY})
 			continue
 		}
